@@ -140,6 +140,9 @@ func init() {
 			k.WCycleCloser = 1
 			k.PSide = 8 // bodies that call String / Visualize / Scope / Provide / Decorate on the container
 			k.PSideKey = 4
+			// group decorators that replace the group without reading it:
+			// the feeders are then outside every consumer's closure
+			k.PDecoGroup, k.PDecoSelf, k.PGroupRes = 45, 45, 35
 			return k
 		},
 		clauses: []string{CUserCodeOutsideInvoke, COutsideClosure, CMustRunMissing, CBadExec, CUnregisteredRan},
@@ -244,7 +247,7 @@ func init() {
 			k := DefaultKnobs()
 			k.Types = []string{"T0", "T1", "T5"}
 			k.Ifaces = []string{"I0"}
-			k.Groups = []string{"g", "h"}
+			k.Groups = []string{"g", "h", "soft", "flatten"} // a name is a name, even if it spells an option
 			k.PGroupRes, k.PGroupParam, k.PSoft, k.PFlatten = 65, 65, 8, 40
 			k.PAs = 30
 			k.PCallback, k.PCBInvoke = 10, 50 // feeders whose callback asks for the whole group
@@ -283,6 +286,7 @@ func init() {
 			k.WInvoke = 9
 			k.PObjParam = 70
 			k.PSoftSibling = 60
+			k.PCallback, k.PCBInvoke = 10, 60 // a callback that asks (softly) for the group its function has just fed
 			// (cross-feature, low rate) the property is also judged on
 			// containers that have seen failed executions and rejected
 			// (cycle-closing) registrations
